@@ -35,6 +35,20 @@ def floats(w, seed=0, name=""):
         ("tiny", "1.0E-99", "r"),
         ("mid", f"{mid:.{prec}E}", "r"),
         ("intlike", "42", "r"),
+        ("enosign", "1.5E03", "r"),
+        ("leaddot", ".5", "r"),
+        ("traildot", "5.", "r"),
+        ("lead0", "0001.5", "r"),
+        ("negdotexp", "-.25E-1", "r"),
+        ("eint", "1E5", "r"),
+        ("tenth", "0.1", "r"),
+        ("third", "0.3333333", "l"),
+        ("nines", "99999.99", "r"),
+        ("digits17", "0.12345678901234567", "r"),
+        ("bigint", "123456789012", "r"),
+        ("subnormal", "4.9E-324", "r"),
+        ("negexp0", "-7.0E+00", "r"),
+        ("exp1digit", "3.5E+7", "r"),
     ]
     return _fit(cands, w)
 
@@ -58,6 +72,11 @@ def ints(w, seed=0, name="", signed=True):
         ("left", "5", "l"),
         ("full9", "9" * w, "r"),
         ("mid", str(rnd.randrange(10 ** max(w - 1, 1))), "r"),
+        ("pow53", "9007199254740993", "r"),
+        ("neg9", "-" + "9" * (w - 1) if signed and w > 1 else "9", "r"),
+        ("zeros", "0" * w, "r"),
+        ("ten", "10", "r"),
+        ("centre", "3", "c"),
     ]
     return _fit(cands, w)
 
